@@ -814,9 +814,14 @@ class PipeFunc(Generic[T]):
 
         """
         state = {
-            k: v for k, v in self.__dict__.items() if k not in ("func", "_pipelines", "resources")
+            k: v
+            for k, v in self.__dict__.items()
+            if k not in ("func", "_pipelines", "resources", "error_snapshot")
         }
         state["func"] = cloudpickle.dumps(self.func)
+        # The snapshot holds the raw function (and its arguments), so it needs cloudpickle as well
+        snapshot = self.__dict__.get("error_snapshot")
+        state["error_snapshot"] = cloudpickle.dumps(snapshot) if snapshot is not None else None
         state["resources"] = (
             cloudpickle.dumps(self.resources) if self.resources is not None else None
         )
@@ -838,6 +843,9 @@ class PipeFunc(Generic[T]):
         self._pipelines = weakref.WeakSet()
         self.func = cloudpickle.loads(self.func)
         self.resources = cloudpickle.loads(self.resources) if self.resources is not None else None
+        snapshot = state.get("error_snapshot")
+        if snapshot is not None:
+            self.error_snapshot = cloudpickle.loads(snapshot)
 
     def _validate_mapspec(self) -> None:
         if self.mapspec is None:
